@@ -87,6 +87,19 @@ Proof.
   rewrite <- powmod_spec by lia. vm_compute. reflexivity.
 Qed.
 
+(* malformed DER (decode fails) or an empty signature: verify returns False (since /repo ab7872a;
+   before, UnexpectedDER escaped from verify) *)
+Lemma dsa_verify_bytes_malformed decode key sig data winv :
+  (sig = [] \/ decode sig = None) -> dsa_verify_bytes decode key sig data winv = false.
+Proof.
+  intros [->|H]; [reflexivity|]. unfold dsa_verify_bytes. destruct sig; [reflexivity|]. rewrite H. reflexivity.
+Qed.
+
+Lemma dsa_verify_bytes_decoded decode key sig data winv r s :
+  sig <> [] -> decode sig = Some (r, s) ->
+  dsa_verify_bytes decode key sig data winv = dsa_verify key r s data (winv s).
+Proof. intros Hn H. unfold dsa_verify_bytes. destruct sig; [contradiction|]. rewrite H. reflexivity. Qed.
+
 (* ---- Python_DSAKey.generate() establishes the group hypothesis (since /repo b7d3c31) -------
    p = 2kq + 1, g = index^((p-1)//q) mod p.  The only thing assumed about p is what primality gives
    for the chosen index: index^(p-1) = 1 (mod p) (Fermat; isPrime() is a Miller-Rabin test, trusted). *)
